@@ -219,6 +219,10 @@ func Main() {
 			json.Unmarshal([]byte(os.Args[4]), &j.Replay.Choices)
 		}
 		os.Setenv("VERIF_DEBUG", "1")
+		if tmp, err := os.MkdirTemp("/dev/shm", "vrf-one-"); err == nil {
+			os.Setenv("TMPDIR", tmp)
+			defer os.RemoveAll(tmp)
+		}
 		r := c.Run(j)
 		for _, n := range r.Notes {
 			fmt.Println(n)
@@ -665,6 +669,10 @@ func replayMain(path string) int {
 	}
 	runtime.GOMAXPROCS(1)
 	os.Setenv("VERIF_DEBUG", "1")
+	if tmp, err := os.MkdirTemp("/dev/shm", "vrf-replay-"); err == nil {
+		os.Setenv("TMPDIR", tmp)
+		defer os.RemoveAll(tmp)
+	}
 	r := c.Run(f.Job)
 	for _, n := range r.Notes {
 		fmt.Println(n)
